@@ -1387,9 +1387,20 @@ def _literal_loop_envs(node, fn_node):
             break
         if isinstance(a, ast.For):
             it = a.iter
+            if isinstance(it, ast.Name):
+                vals = lib.assigned_value(fn_node, it.id)
+                if len(vals) == 1 and isinstance(vals[0], (ast.Tuple, ast.List)):
+                    it = vals[0]
             if isinstance(it, (ast.Tuple, ast.List)) and it.elts and all(isinstance(e, ast.Constant) for e in it.elts) \
                     and isinstance(a.target, ast.Name) and len(it.elts) <= 12:
                 envs = [dict(e, **{a.target.id: c}) for e in envs for c in it.elts]
+                if len(envs) > 64:
+                    return [{}], enclosing_loop_iters(node, fn_node)
+            elif isinstance(it, (ast.Tuple, ast.List)) and it.elts and isinstance(a.target, (ast.Tuple, ast.List)) \
+                    and all(isinstance(t_, ast.Name) for t_ in a.target.elts) and len(it.elts) <= 12 \
+                    and all(isinstance(row, (ast.Tuple, ast.List)) and len(row.elts) == len(a.target.elts) for row in it.elts):
+                # a table of rows (condition, message, ...): the loop variables stand for the entries of each row
+                envs = [dict(e, **{t_.id: v_ for t_, v_ in zip(a.target.elts, row.elts)}) for e in envs for row in it.elts]
                 if len(envs) > 64:
                     return [{}], enclosing_loop_iters(node, fn_node)
             else:
@@ -1462,12 +1473,126 @@ def _implied_guards(node, fn_node, kinds):
     return out
 
 
+def _beta(expr):
+    """Apply lambdas to their arguments inside expr: (lambda p: body)(a) -> body[p := a]."""
+    class _B(ast.NodeTransformer):
+        def visit_Call(self, node):
+            node = self.generic_visit(node)
+            f = node.func
+            if isinstance(f, ast.Lambda) and not node.keywords and not f.args.vararg and len(f.args.args) == len(node.args):
+                return nf.subst(f.body, {a.arg: v for a, v in zip(f.args.args, node.args)})
+            return node
+    from ..index import clone as _clone
+    return _B().visit(_clone(expr))
+
+
+def _resolve_table(idx, fi, expr):
+    """AST of a literal table denoted by expr in fi: a display, a local bound once, self.X / Class.X, a module constant."""
+    t = lib.inline_locals(expr, fi.node)
+    if isinstance(t, ast.Attribute) and isinstance(t.value, ast.Name):
+        if t.value.id in ('self', 'cls') and fi.cls is not None:
+            k_, v = idx.lookup_attr(fi.cls, t.attr)
+            return v if isinstance(v, (ast.Tuple, ast.List)) else None
+        kind, obj = idx.resolve_name(fi.module, t.value.id)
+        if kind == 'class':
+            k_, v = idx.lookup_attr(obj, t.attr)
+            return v if isinstance(v, (ast.Tuple, ast.List)) else None
+    if isinstance(t, ast.Name):
+        vals = fi.module.assigns.get(t.id, [])
+        if len(vals) == 1 and isinstance(vals[0], (ast.Tuple, ast.List)):
+            return vals[0]
+    return t if isinstance(t, (ast.Tuple, ast.List)) else None
+
+
+def _refusal_table_sites(idx, fi, rs):
+    """A raise whose condition is "the first-match lookup found something":
+         msg = next((m for cond, m in TABLE if cond(args)), None);  if msg is not None: raise E(msg)
+       or msg = next(self.refusals(), None) with a generator function yielding a message under each condition.
+    Returns [(guards, owner FuncInfo of the condition)] -- one per row / yield -- or None when rs is not of that form."""
+    inner = None
+    for a in ancestors(rs):
+        if a is fi.node:
+            break
+        if isinstance(a, ast.If):
+            inner = a
+            break
+    if inner is None:
+        return None
+    t = inner.test
+    var = None
+    if isinstance(t, ast.Name):
+        var = t.id
+    elif isinstance(t, ast.Compare) and len(t.ops) == 1 and isinstance(t.ops[0], (ast.IsNot, ast.NotEq)) and isinstance(t.left, ast.Name) \
+            and isinstance(t.comparators[0], ast.Constant) and t.comparators[0].value is None:
+        var = t.left.id
+    if var is None or not any(rs is x for b_ in inner.body for x in ast.walk(b_)):
+        return None
+    vals = lib.assigned_value(fi.node, var)
+    if len(vals) == 1 and isinstance(vals[0], ast.IfExp):
+        # msg = 'A' if c1 else 'B' if c2 else None  (a first-match table written as a conditional expression)
+        out = []
+        cur = vals[0]
+        while isinstance(cur, ast.IfExp):
+            if isinstance(cur.body, ast.Constant) and cur.body.value is None:
+                return None
+            out.append((nf.conjuncts(nf.canon(lib.inline_locals(cur.test, fi.node))), fi))
+            cur = cur.orelse
+        if isinstance(cur, ast.Constant) and cur.value is None and out:
+            return out
+        return None
+    if len(vals) != 1 or not (isinstance(vals[0], ast.Call) and nf.callee_name(vals[0]) == 'next' and vals[0].args):
+        return None
+    src = vals[0].args[0]
+    out = []
+    if isinstance(src, (ast.GeneratorExp, ast.ListComp)) and len(src.generators) == 1:
+        g = src.generators[0]
+        if not (isinstance(g.target, (ast.Tuple, ast.List)) and all(isinstance(x, ast.Name) for x in g.target.elts) and len(g.ifs) == 1):
+            return None
+        names = [x.id for x in g.target.elts]
+        test = g.ifs[0]
+        if not (isinstance(test, ast.Call) and isinstance(test.func, ast.Name) and test.func.id in names):
+            return None
+        ci = names.index(test.func.id)
+        table = _resolve_table(idx, fi, g.iter)
+        if table is None:
+            return None
+        for row in table.elts:
+            if not (isinstance(row, (ast.Tuple, ast.List)) and len(row.elts) == len(names) and isinstance(row.elts[ci], ast.Lambda)):
+                return None
+            applied = _beta(ast.Call(func=row.elts[ci], args=list(test.args), keywords=[]))
+            out.append((nf.conjuncts(nf.canon(applied)), fi))
+        return out
+    if isinstance(src, ast.Call):
+        try:
+            targets, how = idx.resolve_call(fi, src)
+        except Exception:
+            return None
+        gens = [t_ for t_ in targets if hasattr(t_, 'node') and any(isinstance(x, ast.Yield) for x in walk_own(t_.node))]
+        if len(gens) != 1 or len([t_ for t_ in targets if hasattr(t_, 'node')]) != 1:
+            return None
+        gfi = gens[0]
+        for y in [x for x in walk_own(gfi.node) if isinstance(x, ast.Yield)]:
+            gs = _loop_guards(y, gfi.node) + guards_of(y, gfi.node)
+            gs = [lib.inline_locals(g_, gfi.node) for g_ in gs]
+            out.append((gs, gfi))
+        return out or None
+    return None
+
+
 def _sites_of(idx, fi):
     """Raise sites of a function: (owner, raise node, [(guards, loops)], handler class names, key).  A raise inside a loop
     over a literal tuple stands for one site per element (the loop variable replaced by the element)."""
     sites = []
     for rs in lib.raises_of(fi.node):
         if rs.exc is None:
+            continue
+        rows = _refusal_table_sites(idx, fi, rs)
+        if rows:
+            # an ordered table of (condition, message) rows / a generator of refusals: one site per row
+            h_ = lib.in_handler(rs)
+            for i, (gs_row, owner_) in enumerate(rows):
+                sites.append((fi, rs, _expand_quantifiers([nf.canon(g_) for g_ in gs_row], enclosing_loop_iters(rs, fi.node)),
+                              lib.handler_class_names(h_) if h_ is not None else [], (id(rs), 'row%d' % i)))
             continue
         gs = _loop_guards(rs, fi.node) + guards_of(rs, fi.node)
         envs, loops = _literal_loop_envs(rs, fi.node)
@@ -3161,6 +3286,8 @@ MUTANTS = [
            "        for group in self.grouping:\n            if len(group) > 1 and not self.subgrader_list and not isinstance(self.config['subgraders'], ListGrader):\n                raise ConfigError(\"A ListGrader with groupings must have a ListGrader subgrader or a list of subgraders\")\n", 'D5'),
     Mutant('seeded-C20k-one-shot-iterator-shared-by-all-answer-lists', LG, "            subgrader = self.config['subgraders']\n\n            # Validate answer_list using the subgraders\n            for answer_list in answers_tuple:\n                for idx, answer in enumerate(answer_list):\n                    # Run the answers through the subgrader schema and the post-schema validation\n                    answer_list[idx] = subgrader.schema_answers(answer)",
            "            subgrader = self.config['subgraders']\n            positions = iter(range(len(answers_tuple[0])))\n\n            for answer_list in answers_tuple:\n                for idx, answer in zip(positions, answer_list):\n                    answer_list[idx] = subgrader.schema_answers(answer)", 'D7'),
+    Mutant('min-length-rule-as-refusal-table-wrong-bound', SD, "        if self.config['min_length'] is not None and len(shapes) != 1:\n            raise ConfigError(\"SpecifyDomain was called with a specified min_length, which \"\n                              \"requires input_shapes to specify only a single shape. \"\n                              \"However, {} shapes were provided.\".format(len(shapes)))\n",
+           "        refusal = next((message for applies, message in (\n            (lambda cfg: cfg['min_length'] is not None and len(cfg['input_shapes']) != 2, 'min_length needs a single shape'),\n        ) if applies(self.config)), None)\n        if refusal is not None:\n            raise ConfigError(refusal)\n", 'D5'),
     Mutant('whitelist-blacklist-or', MH, "    if blacklist and whitelist:\n        raise ConfigError", "    if blacklist or whitelist:\n        raise ConfigError", 'D5'),
     Mutant('unordered-check-removed', LG, "            if not self.config['ordered']:\n                raise ConfigError('Cannot use unordered lists with multiple graders')\n", "", 'D5'),
     Mutant('contiguity-unreachable', LG, "        if not group_nums == set(range(1, max(group_nums) + 1)):", "        if False:", 'D5'),
@@ -3306,6 +3433,8 @@ BENIGN = [
            "        for key, defaults in (('variables', self.default_variables), ('numbered_vars', self.default_variables),\n                              ('user_constants', self.default_variables), ('user_functions', self.default_functions)):\n            warn_if_override(self.config, key, defaults)\n"),
     Benign('C20k-corrected-iterator-per-answer-list', LG, "            subgrader = self.config['subgraders']\n\n            # Validate answer_list using the subgraders\n            for answer_list in answers_tuple:\n                for idx, answer in enumerate(answer_list):\n                    # Run the answers through the subgrader schema and the post-schema validation\n                    answer_list[idx] = subgrader.schema_answers(answer)",
            "            subgrader = self.config['subgraders']\n\n            for answer_list in answers_tuple:\n                positions = iter(range(len(answers_tuple[0])))\n                for idx, answer in zip(positions, answer_list):\n                    answer_list[idx] = subgrader.schema_answers(answer)"),
+    Benign('min-length-rule-as-refusal-table', SD, "        if self.config['min_length'] is not None and len(shapes) != 1:\n            raise ConfigError(\"SpecifyDomain was called with a specified min_length, which \"\n                              \"requires input_shapes to specify only a single shape. \"\n                              \"However, {} shapes were provided.\".format(len(shapes)))\n",
+           "        refusal = next((message for applies, message in (\n            (lambda cfg: cfg['min_length'] is not None and len(cfg['input_shapes']) != 1, 'min_length needs a single shape'),\n        ) if applies(self.config)), None)\n        if refusal is not None:\n            raise ConfigError(refusal)\n"),
     Benign('log-in-init', BASE, "        # Validate the configuration\n        self.config = self.validate_config(use_config)",
            "        _n = len(use_config) if isinstance(use_config, dict) else 0\n        self.config = self.validate_config(use_config)"),
 ]
